@@ -152,7 +152,8 @@ Definition has_survivors (p : pobs) : bool := existsb (fun v => 0 <=? v) (ob_ind
    4 voting with total < goal  5 expired (insufficientVotes) but not (voting with deadline < height) at block begin
    6 snapshot power / validator set of the votes changed  7 passed store without completedYes / finalized with funds left
    8 deadline, goal, type, proposer or pass percentage changed (deadline may be set when voting starts)
-   10 funder records survive the distribution *)
+   10 funder records survive the distribution
+   11 declared insufficientFunds although the goal was met or the funding deadline had not passed *)
 Definition prop_viol (h : Z) (a b : option pobs) : list Z :=
   (if rank_obs b <? rank_obs a then [1] else []) ++
   match b with
@@ -170,6 +171,8 @@ Definition prop_viol (h : Z) (a b : option pobs) : list Z :=
           (if (ob_outcome pb =? 2) && negb (ob_outcome pa =? 2) &&
               negb ((ob_stores pa =? 1) && (ob_status pa =? 1) && (ob_vdl pa <? h)) then [5] else []) ++
           (if (ob_status pa =? 0) || bool_decide (map fst (ob_votes pa) = map fst (ob_votes pb)) then [] else [6]) ++
+          (if (ob_outcome pb =? 1) && negb (ob_outcome pa =? 1) &&
+              ((ob_goal pa <=? ob_total pa) || (h <=? ob_fdl pa)) then [11] else []) ++
           (if (rank_obs a =? 4) && negb (bool_decide (ob_indiv pa = ob_indiv pb)) then [10] else []) ++
           (if (ob_fdl pa =? ob_fdl pb) && (ob_goal pa =? ob_goal pb) && (ob_type pa =? ob_type pb) &&
               (ob_proposer pa =? ob_proposer pb) && (ob_pass pa =? ob_pass pb) &&
